@@ -35,6 +35,7 @@ def scn_faults(ctx):
     faults = {}  # (site, k) -> Injected instance (chosen lazily per call)
     budget = [nfaults]
     raised = []  # (site, k, exc, tags)
+    exc_tags = {}
 
     def tags_of(args):
         out = set()
@@ -48,6 +49,7 @@ def scn_faults(ctx):
                 for y in x:
                     walk(y, depth + 1)
             elif isinstance(x, BaseException):
+                out.update(exc_tags.get(id(x), ()))  # an exception injected earlier into this future's processing
                 for y in x.args:
                     walk(y, depth + 1)
             elif hasattr(x, "result") and not callable(getattr(x, "result")):
@@ -76,6 +78,9 @@ def scn_faults(ctx):
                     budget[0] -= 1
                     exc = Injected("%s#%d" % (name, k))
                     tg = tags_of(a)
+                    if name == "callable":
+                        tg = set(tg) | {0}
+                    exc_tags[id(exc)] = set(tg)
                     raised.append((name, k, exc, tg))
                     ev.add("fault", site=name, k=k, tags=sorted(tg))
                     raise exc
@@ -98,7 +103,7 @@ def scn_faults(ctx):
     chain = []
     for ln in layers:
         if ln == "map":
-            ex = Executors.with_map(ex, site("map_fn", lambda v: v), error_fn=site("error_fn", lambda e: ("v", e.args[0][1]) if e.args and isinstance(e.args[0], tuple) else ("v", -1)))
+            ex = Executors.with_map(ex, site("map_fn", lambda v: v), error_fn=site("error_fn", lambda e: ("v", e.args[0][1]) if e.args and isinstance(e.args[0], tuple) else ("v", min(exc_tags.get(id(e)) or [-1]))))
         elif ln == "flat_map":
             ex = Executors.with_flat_map(ex, site("flat_fn", lambda v: f_return(v)))
         elif ln == "retry":
